@@ -332,6 +332,9 @@ func runGroup(spec *Spec, gi int, specDir, verifRoot, tier, only, paramFilter st
 		var f []instance
 		for _, in := range insts {
 			ok := true
+			if concreteModel != "" && len(in.params) != len(want) {
+				ok = false // a replay names the instance exactly
+			}
 			for k, v := range want {
 				if in.params[k] != v {
 					ok = false
@@ -701,6 +704,18 @@ func finish(spec *Spec, tier string, seed int, evidencePath string, start time.T
 		writeJSON(filepath.Join(dir, "model.json"), nv.v.Model)
 		writeJSON(filepath.Join(dir, "violation.json"), map[string]interface{}{"property": spec.Property, "instance": nv.in.String(), "params": nv.in.params, "violation": nv.v})
 		status := "native-replay: none"
+		if !nv.r.gspec.NativeReplay {
+			// engine-level stubs: the replay artefact re-runs this instance in the engine's concrete mode under the model
+			var kv []string
+			for k, v := range nv.in.params {
+				kv = append(kv, fmt.Sprintf("%s=%d", k, v))
+			}
+			sort.Strings(kv)
+			script := fmt.Sprintf("#!/bin/sh\n# concrete re-execution of the counterexample in the engine (the harness depends on engine-level stubs)\ncd %s && ./check %s %s --only %s --params '%s' --concrete %s --no-evidence --no-replay\n",
+				root, spec.Property, tier, nv.in.entry, strings.Join(kv, ","), filepath.Join(dir, "model.json"))
+			os.WriteFile(filepath.Join(dir, "replay.sh"), []byte(script), 0o755)
+			status = "native-replay: none (engine concrete replay: replay.sh)"
+		}
 		if prev, seen := replayedKeys[nv.v.Key]; seen && nv.r.gspec.NativeReplay && !noReplay {
 			status = "native-replay: same key reproduced in " + prev
 		} else if nv.r.gspec.NativeReplay && !noReplay {
